@@ -15,7 +15,7 @@ def pinned : Shape := ⟨true, false⟩
 def E : Wire :=
   ⟨fun t => if t = cm.tok z 1 then [65] else if t = km.tok pinned z 1 then [66] else [67],
    fun w => if w = [65] then some (cm.tok z 1) else if w = [66] then some (km.tok pinned z 1) else none⟩
-def D : Decoders := ⟨fun _ => true, fun _ => true⟩
+def D : Decoders := ⟨fun _ => true, fun _ => true, fun _ => true⟩
 def srv : Server := ⟨1, 3600⟩
 def W : World :=
   { cursors := [cm] ++ World.empty.cursors, calls := km :: World.empty.calls,
